@@ -155,7 +155,10 @@ PROPS = {
                 'rds/cds/eds (and lds without name table) universes is subscribed, cached and put at random into a class: old (looked up, last access back-dated 40 s through a verif hook), fresh (looked up again 1.2 s before the tick), '
                 'never (cached after its lookup timed out, never looked up again), plain (looked up at set-up only); the reserved inbound listener is looked up and back-dated. Evictions are read off the requests of the sweep and replayed '
                 'in the state machine; afterwards an evicted name is looked up again, pushed and looked up. Non-trivial: the sweep evicted something'
-            + ' Class "relooked": back-dated 10 s, looked up again, moved 5 s forward - 25 s idle at the tick, must stay.',
+            + ' Class "relooked": back-dated 10 s, looked up again, moved 5 s forward - 25 s idle at the tick, must stay.'
+            + ' Class "dropped" (listeners, clusters): looked up, removed by a complete update of the control plane, never looked up again - still subscribed, 40 s idle at the tick: the sweep withdraws it.'
+            + ' After the ticks up to two evicted route-configuration / endpoint names per manager are looked up again (must subscribe again, a request naming them follows, and return the value pushed afterwards);'
+            + ' for every second one an update naming it, sent before the control plane saw the unsubscription, arrives first and must not bring the entry back.',
         'assumptions': COMMON_ASSUME + ['tick timing is the Go runtime ticker; the model sweeps at logical instants (creation = 100, ticks = 130, 160)',
                                          'that the cleaner visits every entry at every tick is the regenerated shape fact cleanerShape plus these runs'],
         'level_text': 'Theorems: the cleaner can remove an entry only if its last access is more than 30 s old and it is not the reserved inbound listener (recent_kept, reserved_kept), and exactly such an entry is removable; '
